@@ -1,6 +1,6 @@
 SPECIFICATION Spec
 CONSTANTS
   Shapes = {"1x1", "2x3"}
-  RXs = {"p1", "mh"}
+  RXs = {"p1", "mh", "p2"}
   RYs = {"m1", "ph"}
 INVARIANT GridModelOK
